@@ -248,6 +248,8 @@ class Tracker:
     def seed_call_result(self, local, steps, is_future):
         st = ("fut", tuple(steps), False) if is_future else self._mk_val(steps)
         self.states.setdefault(local, set()).add(st)
+        self._seed_defs = getattr(self, "_seed_defs", {})
+        self._seed_defs[local] = self._seed_defs.get(local, 0) + 1
 
     def seed_discr(self, local, steps):
         """`local` holds discriminant(value) of a value whose accepting shape is `steps`"""
@@ -317,6 +319,13 @@ class Tracker:
         self._mixed = set()
         self._propagate(blocks)
         mixed = {l for l, n in ndefs.items() if n > 1 and l in self._contrib and len(self._contrib[l]) < n and l not in seeds}
+        # a seeded call result whose variable is also assigned something else on another path (`let r = if skip { Ok(()) } else
+        # { guarded_call() }`): a branch on it is not the guard's decision either
+        sd = getattr(self, "_seed_defs", {})
+        mixed_seeds = {l for l, k in sd.items() if ndefs.get(l, 0) > k}
+        if mixed_seeds:
+            mixed |= mixed_seeds
+            seeds = {l: v for l, v in seeds.items() if l not in mixed_seeds}
         if mixed:
             self.states = {l: set(v) for l, v in seeds.items()}
             self._contrib = {}
